@@ -23,7 +23,8 @@ class KGen:
                  malformed: float = 0.06, wrong_state: float = 0.08, max_ctx: int = 8, max_tasks: int = 3,
                  td_depth: int = 2, gated: float = 0.35, exc_end: float = 0.4, many_callbacks: bool = False,
                  p_cancel: float = 0.0, p_pair: float = 0.25, p_manual: float = 0.0, p_mid: float = 0.0,
-                 p_cur_after: float = 0.0, p_defer: float = 0.0, p_again: float = 0.0, p_forget: float = 0.0) -> None:
+                 p_cur_after: float = 0.0, p_defer: float = 0.0, p_again: float = 0.0, p_forget: float = 0.0,
+                 p_comp: float = 0.0) -> None:
         self.rng = rng
         self.w = dict(DEFAULT_WEIGHTS)
         if weights:
@@ -41,6 +42,7 @@ class KGen:
         self.p_defer = p_defer
         self.p_again = p_again
         self.p_forget = p_forget
+        self.p_comp = p_comp
         self.injects: list[dict[str, Any]] = []     # injected calls made so far (their functions can be called again)
         self.n_fns = 0
         self.deferred: list[list[Any]] = []      # [countdown, resume op] of lookups whose coroutine is awaited later
@@ -115,7 +117,12 @@ class KGen:
         return self.rng.choice(list(self.stacks))
 
     def via(self, t: int, c: int) -> str:
-        return "shortcut" if self.cur.get(t) == c and self.rng.random() < 0.5 else "method"
+        p = 0.8 if self.ctxs.get(c, {}).get("comp") else 0.5      # (the module-level functions are what components use)
+        return "shortcut" if self.cur.get(t) == c and self.rng.random() < p else "method"
+
+    def in_comp(self, t: int) -> bool:
+        c = self.cur.get(t)
+        return c is not None and bool(self.ctxs[c].get("comp"))
 
     # -------------------------------------------------------------- op generators
     def gen_op(self) -> dict[str, Any] | None:
@@ -150,7 +157,7 @@ class KGen:
                 x["token"] = self.cur.get(t)
                 self.stacks[t].append(c)
                 self.cur[t] = c
-                if x["parent"] is not None and rng.random() < self.p_manual:
+                if x["parent"] is not None and rng.random() < self.p_manual and not self.ctxs.get(x["token"], {}).get("comp"):
                     # entered by hand and never left (the block around it, if any, is left while it is still
                     # this task's current context)
                     self.stacks[t].pop()
@@ -163,6 +170,11 @@ class KGen:
                     ex["end"] = {"k": "cancelled"}
                     self.queue.append(ex)
                     return {"op": "enter", "t": t, "c": c, "pre": True}
+                if rng.random() < self.p_comp:
+                    # what the task does inside this block it does from a component's start(): its current context is
+                    # the component's own context, which hands every call on to the context of the block
+                    x["comp"] = True
+                    return {"op": "enter", "t": t, "c": c, "comp": True}
             return {"op": "enter", "t": t, "c": c}
         if kind == "exit":
             ts = [t for t, s in self.stacks.items() if s]
@@ -240,6 +252,8 @@ class KGen:
                 ty, name = rng.choice(gk)         # lookups piling up on a suspended factory
             op = {"op": kind, "t": t, "c": c, "ty": ty, "name": name,
                   "opt": rng.random() < 0.35, "via": self.via(t, c)}
+            if kind == "get" and not op["opt"] and self.ctxs[c].get("comp"):
+                op["via"] = "method"      # (a component's own get_resource() *waits* for a missing resource: C06's subject)
             if kind == "get" and rng.random() < self.p_defer and (ty, name) not in self.ctxs[c].get("gated_keys", ()):
                 # the coroutine of the lookup is created now (through the context object) and awaited only later -
                 # possibly after the context has been left: what counts is the state when it runs
@@ -330,7 +344,8 @@ class KGen:
                     self.ctxs[c]["atds"].pop()
                 op["via"] = "ctxtd"          # registered through @context_teardown (needs the current context)
                 subs = [d for d, x in self.ctxs.items() if x["state"] == "inactive" and x["parent"] == c]
-                if self.ctxs[c]["state"] == "open" and rng.random() < 0.3 and (subs or len(self.ctxs) < self.max_ctx):
+                if self.ctxs[c]["state"] == "open" and rng.random() < 0.3 and (subs or len(self.ctxs) < self.max_ctx) \
+                        and not self.ctxs[c].get("comp"):
                     # … whose first half enters a sub-context by hand and keeps it open
                     first = None
                     if subs:
@@ -362,8 +377,10 @@ class KGen:
             # handler serving one short-lived context after the other)
             c = self.cur.get(t)
             old = rng.choice(self.injects)
-            if not (old["async"] and c is not None and any(
-                    (d["ty"], d["name"]) in self.ctxs[c].get("gated_keys", ()) for d in old["deps"])):
+            if old["async"] and self.in_comp(t):
+                old = next((o for o in self.injects if not o["async"]), old)
+            if not (old["async"] and c is not None and (self.in_comp(t) or any(
+                    (d["ty"], d["name"]) in self.ctxs[c].get("gated_keys", ()) for d in old["deps"]))):
                 import copy
 
                 again = copy.deepcopy(old)
@@ -372,7 +389,7 @@ class KGen:
                 return again
         if kind == "inject":
             c = self.cur.get(t)
-            is_async = rng.random() < 0.5
+            is_async = rng.random() < 0.5 and not self.in_comp(t)      # (same reason: an injected coroutine would wait)
             deps = []
             keys = self.ctxs[c]["keys"] if c is not None else []
             for i in range(rng.choice([1, 1, 2, 2, 3, 4])):
@@ -402,6 +419,7 @@ class KGen:
                 # context is a different one
                 others_t = [t2 for t2, c2 in self.cur.items() if t2 != t and c2 is not None and c2 != c
                             and self.ctxs[c2]["state"] == "open" and self.ctxs[c]["state"] == "open"
+                            and not self.ctxs[c2].get("comp")
                             and not any((d["ty"], d["name"]) in self.ctxs[c2].get("gated_keys", ()) for d in deps)]
                 if others_t:
                     self.n_pairs += 1
